@@ -471,8 +471,11 @@ func runCmpSearch(c *Ctx) {
 			}
 			if ci < 0 {
 				// no comparison on this path: loop exhausted ⇒ true, or record too short ⇒ false
+				// "record too short" is the exit taken right at the length test: the last thing the path established
+				// is the literal on len(record)
 				short := false
-				for _, l := range lp.Lits {
+				if n := len(lp.Lits); n > 0 {
+					l := lp.Lits[n-1]
 					if strings.Contains(l.Subject, "len("+recP+")") && !strings.Contains(l.Subject, "len("+keyP+")") {
 						short = true
 					}
